@@ -10,6 +10,8 @@ import (
 	"fmt"
 	"math"
 	"math/rand"
+	"os"
+	"runtime/debug"
 	"sort"
 	"strconv"
 	"strings"
@@ -20,6 +22,7 @@ import (
 	cstate "0chain.net/chaincore/chain/state"
 	"0chain.net/chaincore/node"
 	"0chain.net/chaincore/round"
+	"0chain.net/chaincore/smartcontract"
 	"0chain.net/chaincore/threshold/bls"
 	"0chain.net/chaincore/transaction"
 	"0chain.net/core/config"
@@ -159,6 +162,8 @@ type world struct {
 	dkgs   map[string]*bls.DKG // the DKG object a miner created for its contribution (by label)
 	gen    ident
 	lfmbNo int64
+	// riskyCfg: x_percent <= 0, where reduceShardersList / reduce can panic inside payFees
+	riskyCfg bool
 }
 
 type nodeSpec struct {
@@ -343,19 +348,38 @@ func newWorld(ws []string) (*world, string) {
 		}
 		hs = append(hs, hookNode(s))
 	}
+	engine.Setup().SetupStateCache() // cases run serially: drop the previous world's cache entries
 	w, err := engine.NewWorld(map[string]currency.Coin{}, func(sctx *cstate.StateContext) error {
 		return minersc.VerifC38Init(sctx, cfg, hm, hs)
 	})
 	if err != nil {
 		return nil, "init-error " + err.Error()
 	}
-	wd := &world{w: w, nonce: map[string]int64{}, dkgs: map[string]*bls.DKG{}}
+	wd := &world{w: w, nonce: map[string]int64{}, dkgs: map[string]*bls.DKG{}, riskyCfg: !(cfg.XPercent > 0)}
 	wd.w.C.MagicBlockStorage = round.NewRoundStartingStorage()
 	wd.setChainMB(mkMagicBlock(1, 0, prevM, prevS, ""), seed)
 	wd.gen, _ = identOf(prevM[0])
 	wd.w.B.MinerID = wd.gen.c.ID
 	return wd, "ok"
 }
+
+// dryRun executes the contract call directly on a throw-away transaction state and reports whether it panics.
+func (wd *world) dryRun(from ident, fn, input string) (panicked bool) {
+	defer func() {
+		if r := recover(); r != nil {
+			panicked = true
+			lastPanic = fmt.Sprint(r) + "\n" + string(debug.Stack())
+		}
+	}()
+	tc := statecache.NewTransactionCache(wd.w.BC)
+	mpt := chain.CreateTxnMPT(wd.w.State, tc)
+	t := wd.w.Txn(from.c, minersc.ADDRESS, 0, 0, wd.nonce[from.c.ID]+1, transaction.TxnTypeSmartContract, fn, input)
+	sctx := wd.w.C.NewStateContext(wd.w.B, mpt, t, nil)
+	_, _ = smartcontract.ExecuteSmartContract(t, sctx)
+	return false
+}
+
+var lastPanic string
 
 func (wd *world) exec(from ident, fn, input string) string {
 	n := wd.nonce[from.c.ID] + 1
@@ -431,7 +455,12 @@ func (wd *world) step(ws []string) string {
 			return "bad-op"
 		}
 		in, _ := json.Marshal(map[string]int64{"round": wd.w.B.Round})
-		r := wd.exec(wd.gen, "payFees", string(in))
+		var r string
+		if wd.riskyCfg && wd.dryRun(wd.gen, "payFees", string(in)) {
+			r = "panic" // (through UpdateState this panic would end the process)
+		} else {
+			r = normPay(wd.exec(wd.gen, "payFees", string(in)))
+		}
 		out := r + " | " + wd.snapshot()
 		wd.w.NextBlock()
 		wd.w.B.MinerID = wd.gen.c.ID
@@ -464,10 +493,13 @@ func (wd *world) step(ws []string) string {
 		} else if len(ws) != 3 {
 			return "bad-op"
 		}
-		d := bls.MakeDKG(size, nMinerKeys, from.c.ID)
-		mpk := &block.MPK{ID: asID}
-		for _, v := range d.GetMPKs() {
-			mpk.Mpk = append(mpk.Mpk, v.GetHexString())
+		var d *bls.DKG
+		mpk := &block.MPK{ID: asID, Mpk: []string{}}
+		if size > 0 {
+			d = bls.MakeDKG(size, nMinerKeys, from.c.ID)
+			for _, v := range d.GetMPKs() {
+				mpk.Mpk = append(mpk.Mpk, v.GetHexString())
+			}
 		}
 		var input string
 		if asID == "" {
@@ -477,7 +509,7 @@ func (wd *world) step(ws []string) string {
 			input = string(mpk.Encode())
 		}
 		r := wd.exec(from, "contributeMpk", input)
-		if r == "ok" {
+		if r == "ok" && d != nil {
 			key := ws[1]
 			if asID != "" {
 				key = labelOf[asID]
@@ -559,7 +591,15 @@ func (wd *world) step(ws []string) string {
 			sos.ShareOrSigns[id] = ks
 			n++
 		}
-		return wd.exec(from, "shareSignsOrShares", string(sos.Encode()))
+		input := string(sos.Encode())
+		if os.Getenv("VERIF_C38_UNGUARDED") == "" {
+			// a panic inside the contract is fatal when it runs in the goroutine Chain.ExecuteSmartContract starts:
+			// try the call directly first (throw-away transaction state, panics recovered)
+			if wd.dryRun(from, "shareSignsOrShares", input) {
+				return "crash"
+			}
+		}
+		return wd.exec(from, "shareSignsOrShares", input)
 	case "wait":
 		if len(ws) != 2 {
 			return "bad-op"
